@@ -5,7 +5,7 @@ from __future__ import annotations
 
 import ast
 from inspect import Parameter as SignatureParameter
-from inspect import Signature, cleandoc, getsourcelines
+from inspect import Signature, getsourcelines
 from inspect import signature as getsignature
 from typing import TYPE_CHECKING, Any
 
@@ -160,17 +160,17 @@ class Inspector:
             return None
         try:
             # We avoid `inspect.getdoc` to avoid getting
-            # the `__doc__` attribute from a parent class,
-            # but we still want to clean the doc.
-            cleaned = cleandoc(value)
+            # the `__doc__` attribute from a parent class.
+            # The docstring cleans its value itself (cleaning it twice
+            # would strip the relative indentation of its first lines).
+            return Docstring(
+                value,
+                parser=self.docstring_parser,
+                parser_options=self.docstring_options,
+            )
         except AttributeError:
             # Triggered on method descriptors.
             return None
-        return Docstring(
-            cleaned,
-            parser=self.docstring_parser,
-            parser_options=self.docstring_options,
-        )
 
     def _get_linenos(self, node: ObjectNode) -> tuple[int, int] | tuple[None, None]:
         # Line numbers won't be useful if we don't have the source code.
